@@ -21,7 +21,8 @@ EXPLANATION = (
     "by E2 against exhaustive minima. Completeness of encode_mgs is proved (C15_genset_rows_complete, partition constraints included), hence "
     "C15_mgs_returns_minimum: the reported size is the least size of a generating multiset from the lower bound on. The range's upper end suffices without partition "
     "constraints (C15_range_witness, C15_range_upper_end_suffices, C15_mgs_always_solves; feasibility monotone in k by zero padding); "
-    "_partial only with partition constraints (cut-point construction not proved; sampled by E2).")
+    "with partition constraints C15_range_suffices (cut-point construction) and the two-directional iff for the predicate the rows "
+    "enforce (genset_rows); C15_mgs_always_solves_minimum: solved with the minimum on the whole documented domain.")
 ASSUMPTIONS = ["HiGHS status kOptimal => returned assignment satisfies the rows within 1e-9 and is optimal; kInfeasible => no assignment (solver specification, DESIGN §4)",
                "float instances use dyadic values (exact in doubles); float answers are checked with tolerance 1e-6, integer answers exactly",
                "exhaustive minima: integer multisets over 0..total (total <= 12, size <= 4); set covers over all 2^n subfamilies (n <= 8)"]
@@ -91,12 +92,33 @@ def bit_cap(total):
     return 2 ** math.ceil(math.log2(total + 1)) - 1
 
 
+def cut_witness(nums, total, parts):
+    """differences of the sorted cut points (numbers, inner prefix sums of every partition constraint) and the total; None outside
+    the documented domain (a number outside [0,total], an empty or non-positive constraint, a constraint not summing to total)"""
+    if any(a < 0 or a > total for a in nums):
+        return None
+    cps = list(nums)
+    for c in (parts or []):
+        if not c or any(p <= 0 for p in c) or sum(c) != total:
+            return None
+        acc = 0
+        for p in c[:-1]:
+            acc += p; cps.append(acc)
+    cps.sort()
+    out = []; prev = 0
+    for a in cps + [total]:
+        out.append(a - prev); prev = a
+    return out
+
+
 def check_mgs_answer(ctx, kw, scale, r, rep):
     """E2 on one (un-injected) run"""
     m = r["m"]; is_int = kw["weight_type"] == int
     mult = kw["max_multiplicity"]; lb = kw["lowerbound"]
     nums, total, parts = exact_numbers(kw, scale)
-    oracle = props.min_genset(nums, total, mult, parts, lowerbound=lb, maxsize=4)
+    # exhaustive minimum: sizes <= 4; <= 5 when several partition constraints push the optimum to the top of the range
+    MAXS = 5 if (parts and len(parts) >= 2 and total <= 14) else 4
+    oracle = props.min_genset(nums, total, mult, parts, lowerbound=lb, maxsize=MAXS)
     n_init = len(kw["numbers"])
     first_k = max(1, lb)                                  # 2a5d8e1: the search starts at max(1, lowerbound)
     code_range = list(range(first_k, max(first_k + 1, n_init + 2 + e1misc.extra_cuts(kw.get("partition_constraints")))))
@@ -111,11 +133,20 @@ def check_mgs_answer(ctx, kw, scale, r, rep):
                 ctx.report(f"MinGenSet unsolved although a generating set of size {k_opt} exists ({oracle[1]}): k range {code_range} stops before it",
                            rep, key="mgs_range_ignores_partition_constraints" if kw.get("partition_constraints") else "mgs_upper_end_exclusive")
             elif mult > 1 and bit_cap(kw["total"]) < mult and \
-                    props.min_genset(nums, total, min(mult, bit_cap(kw["total"])), parts, lowerbound=lb, maxsize=min(4, max(code_range))) is None:
+                    props.min_genset(nums, total, min(mult, bit_cap(kw["total"])), parts, lowerbound=lb, maxsize=min(MAXS, max(code_range))) is None:
                 ctx.report(f"MinGenSet unsolved although {oracle[1]} (scaled by {scale}) is a generating set: multiplicities > {bit_cap(kw['total'])} are cut off by the bit expansion",
                            rep, key="mgs_multiplicity_cut_by_bit_width")
             else:
                 ctx.report(f"MinGenSet unsolved although a generating set exists: {oracle[1]}; statuses {r['statuses']}", rep)
+        else:
+            # no generating set of size <= MAXS: the cut-point witness of Props/C15.v C15_range_suffices (numbers and inner prefix sums of
+            # every constraint as cut points; their differences) is a generating multiset of len(numbers)+1+extra_cuts elements whenever
+            # the input is in the documented domain -- checked here by genset_ok, so the verdict does not rest on the theorem
+            wit = cut_witness(nums, total, parts)
+            if wit is not None and lb <= len(wit) and props.genset_ok(nums, total, wit, mult, parts) is None \
+                    and all(st == "kInfeasible" for st in r["statuses"].values()):
+                ctx.report(f"MinGenSet unsolved although a generating multiset exists (cut-point witness {wit}, {len(wit)} elements): the k range "
+                           f"tried, {sorted(r['statuses'])}, stops before len(numbers)+1+extra_cuts = {len(set(nums)) + 1 + e1misc.extra_cuts(parts)}", rep)
         return
     sol = m.get_solution()
     ctx.count("E2_genset", "solved")
@@ -138,8 +169,8 @@ def check_mgs_answer(ctx, kw, scale, r, rep):
         return
     ctx.count("E2_genset", "genset_ok")
     if oracle is None:
-        if len(sol) <= 4:
-            ctx.report(f"oracle finds no integer generating set of size <= 4 but MinGenSet returned {sol}", dict(rep, solution=sol),
+        if len(sol) <= MAXS:
+            ctx.report(f"oracle finds no integer generating set of size <= {MAXS} but MinGenSet returned {sol}", dict(rep, solution=sol),
                        concrete=is_int)
         return
     k_opt = oracle[0]
@@ -151,7 +182,7 @@ def check_mgs_answer(ctx, kw, scale, r, rep):
             ctx.count("E2_genset", "minimum_confirmed")
     else:
         if len(sol) > k_opt and mult > 1 and bit_cap(kw["total"]) < mult:
-            o2 = props.min_genset(nums, total, min(mult, bit_cap(kw["total"])), parts, lowerbound=lb, maxsize=4)
+            o2 = props.min_genset(nums, total, min(mult, bit_cap(kw["total"])), parts, lowerbound=lb, maxsize=MAXS)
             ctx.report(f"MinGenSet (float, total {kw['total']}) returned {len(sol)} elements {sol} although {oracle[1]} (scaled by {scale}) generates every number "
                        f"with multiplicities <= {mult}: the bit expansion of the multiplicity has only ceil(log2(total+1)) bits, so multiplicities > {bit_cap(kw['total'])} are cut off",
                        dict(rep, solution=sol, oracle=oracle[1]),
@@ -300,6 +331,13 @@ def witness_probes(ctx):
         if r["ok"] and len(r["m"].get_solution()) != 1:
             ctx.report(f"MinGenSet([1,2], total 1, multiplicity 2) returns {r['m'].get_solution()} although {{1}} generates both numbers", {"class": "MinGenSet", "args": describe(kw)},
                        key="mgs_pi_bounded_by_total")
+    # fixed corpus: several partition constraints and FEW numbers -- the optimum lies in the top part of the range
+    # lowerbound .. len(numbers)+1+sum(len(c)-1) (C15_range_suffices); a shorter range ends unsolved
+    for nums, total, parts in (([1], 14, [[2, 4, 8], [3, 5, 6]]), ([1], 12, [[5, 7], [4, 8], [3, 9]]), ([2], 11, [[1, 4, 6], [2, 3, 6]])):
+        kw = dict(numbers=nums, total=total, weight_type=int, max_multiplicity=1, lowerbound=1, remove_complement_values=True, partition_constraints=parts)
+        r = run_mgs(ctx, kw)
+        ctx.count("probe_witness", "cases")
+        check_mgs_answer(ctx, kw, 1, r, {"class": "MinGenSet", "args": describe(kw), "witness": "several partition constraints, few numbers"})
     # fixed corpus: two partition constraints over the SAME value set with different multiplicities (both must be kept)
     for parts in ([[1, 2, 2], [1, 1, 1, 2]], [[1, 1, 1, 2], [1, 2, 2]], [[2, 2, 1], [2, 1, 1, 1], [1, 2, 2]]):
         kw = dict(numbers=[1, 2], total=5, weight_type=int, max_multiplicity=1, lowerbound=1, remove_complement_values=True, partition_constraints=parts)
